@@ -379,7 +379,7 @@ pub fn run_batch(spec: &CheckSpec, thorough: bool, base_seed: u64, runs_override
         "coverage": {
             "evaluations": cov.evaluations.max(0),
             "distinct_nontrivial": distinct,
-            "rule": spec.rule,
+            "rule": spec.rule.replace("HIST ", crate::HIST),
             "samples": samples,
             "simulated_runs": runs,
             "seeds": format!("{}..{}", base_seed, base_seed.wrapping_add(runs)),
